@@ -79,6 +79,40 @@ fn persist_checks(orig: &mut NbCore<14, 0>, cfg: &DevCfg, history_replay: &dyn F
         Err(e) => out.push(V { sig: "C20|serialise-error".into(), what: e.to_string() }),
         _ => {}
     }
+    // (i') the same document through the other ways an application may hand it over: a reader / byte slice (keys
+    // cannot be borrowed), a generic JSON value (members re-ordered alphabetically), and with the members of every
+    // object in reverse order — a JSON object is unordered
+    let same = |name: &str, r: Result<Result<Session, String>, String>| -> Option<V> {
+        match r {
+            Err(p) => Some(V { sig: format!("C20|panic|deserialise-{name}|{}", panic_site(&p)), what: p }),
+            Ok(Err(e)) => Some(V { sig: format!("C20|own-document-rejected|{name}"), what: format!("{e}: {doc}") }),
+            Ok(Ok(s2)) => match serde_json::to_string(&s2) {
+                Ok(d2) if d2 == doc => None,
+                Ok(d2) => Some(V { sig: format!("C20|restored-session-differs|{name}"), what: format!("original {doc}
+restored {d2}") }),
+                Err(e) => Some(V { sig: "C20|serialise-error".into(), what: e.to_string() }),
+            },
+        }
+    };
+    fn reversed(v: &Value) -> String {
+        match v {
+            Value::Object(m) => format!("{{{}}}", m.iter().rev().map(|(k, x)| format!("{}:{}", Value::String(k.clone()), reversed(x))).collect::<Vec<_>>().join(",")),
+            Value::Array(a) => format!("[{}]", a.iter().map(reversed).collect::<Vec<_>>().join(",")),
+            x => x.to_string(),
+        }
+    }
+    let generic: Option<Value> = serde_json::from_str(&doc).ok();
+    out.extend(same("from_reader", catch(|| serde_json::from_reader::<_, Session>(doc.as_bytes()).map_err(|e| e.to_string()))));
+    out.extend(same("from_slice", catch(|| serde_json::from_slice::<Session>(doc.as_bytes()).map_err(|e| e.to_string()))));
+    if let Some(g) = generic {
+        let g2 = g.clone();
+        out.extend(same("from_value", catch(move || serde_json::from_value::<Session>(g2).map_err(|e| e.to_string()))));
+        let rev = reversed(&g);
+        out.extend(same("members-in-reverse-order", catch(|| serde_json::from_str::<Session>(&rev).map_err(|e| e.to_string()))));
+    }
+    if !out.is_empty() {
+        return out;
+    }
     // (ii) every field survives
     let mut twin: NbCore<14, 0> = NbCore::new(&DevCfg::abp(&cfg.region));
     twin.dev.set_session(restored);
